@@ -6,7 +6,6 @@ import (
 
 	"github.com/mmcloughlin/avo/attr"
 	"github.com/mmcloughlin/avo/ir"
-	"github.com/mmcloughlin/avo/pass"
 	"github.com/mmcloughlin/avo/printer"
 )
 
@@ -15,6 +14,8 @@ import (
 func init() {
 	register("c19", "attribute printing (exhaustive) and textflag include pass", func(args []string) error {
 		f := newStdFlags("c19")
+		work := f.fs.String("work", ".", "scratch directory of the measured route")
+		nasm := f.fs.Int("nasm", 100, "number of assembled files")
 		if err := f.fs.Parse(args); err != nil {
 			return err
 		}
@@ -24,6 +25,14 @@ func init() {
 		}
 		defer o.close()
 		macro, nonmacro := 0, 0
+		if _, isCorpus := c19CorpusLines(*f.replay); isCorpus {
+			// corpus/C19/*.txt: recorded files only (c19file.go)
+			st := map[string]int{}
+			if err := c19FileStreams(o, f, *work, 0, st); err != nil {
+				return err
+			}
+			return writeJSON(*f.stats, st)
+		}
 		// the TEXT and GLOBL clauses are taken from the REAL printer: files of 256 functions + 256 globals, one per value
 		textClause := make([]string, 65536)
 		globlClause := make([]string, 65536)
@@ -109,60 +118,12 @@ func init() {
 				o.emit(fmt.Sprintf("accept-attr %d %s %s", v, clause, c), "ok")
 			}
 		}
-		// include pass on generated files
-		r := newRng(*f.seed)
-		for k := 0; k < *f.n; k++ {
-			file := ir.NewFile()
-			var incl []string
-			for j := r.intn(3); j > 0; j-- {
-				incl = append(incl, pick(r, []string{"a.h", "textflag.h", "b.h", "textflag.h"}))
-			}
-			file.Includes = append([]string{}, incl...)
-			var secs []int
-			for j := r.intn(4); j > 0; j-- {
-				var v int
-				switch r.intn(4) {
-				case 0:
-					v = 0
-				case 1:
-					v = 128 << r.intn(2) * (1 + 127*r.intn(2)) // unnamed bits 128, 4096.. region
-				case 2:
-					v = 1 << r.intn(16)
-				default:
-					v = int(r.u64() & 0xffff)
-				}
-				v &= 0xffff
-				secs = append(secs, v)
-				if r.chance(1, 2) {
-					fn := ir.NewFunction("f")
-					fn.Attributes = attr.Attribute(v)
-					file.AddSection(fn)
-				} else {
-					g := ir.NewStaticGlobal("g")
-					g.Attributes = attr.Attribute(v)
-					file.AddSection(g)
-				}
-			}
-			if err := pass.IncludeTextFlagHeader(file); err != nil {
-				return err
-			}
-			req := []string{"inclpass", itoa(len(incl))}
-			req = append(req, incl...)
-			req = append(req, itoa(len(secs)))
-			for _, s := range secs {
-				req = append(req, itoa(s))
-			}
-			resp := append([]string{itoa(len(file.Includes))}, file.Includes...)
-			o.emit(strings.Join(req, " "), strings.Join(resp, " "))
-			acc := append([]string{"accept-incl", itoa(len(file.Includes))}, file.Includes...)
-			acc = append(acc, itoa(len(secs)))
-			for _, s := range secs {
-				acc = append(acc, attr.Attribute(s).Asm())
-			}
-			o.emit(strings.Join(acc, " "), "ok")
+		// file level: the include pass over all prior include lists, three routes (c19file.go)
+		st := map[string]int{}
+		if err := c19FileStreams(o, f, *work, *nasm, st); err != nil {
+			return err
 		}
-		return writeJSON(*f.stats, map[string]any{
-			"attr_values": 65536, "with_macro": macro, "without_macro": nonmacro, "include_pass_files": *f.n,
-		})
+		st["attr_values"], st["with_macro"], st["without_macro"], st["include_pass_files"] = 65536, macro, nonmacro, *f.n
+		return writeJSON(*f.stats, st)
 	})
 }
